@@ -189,3 +189,9 @@ Definition send_commands_code : list dstmt :=
 (* response/multi.go MultiResponse.AppendResponse *)
 Definition append_response_code : list dstmt :=
   [DAssign "mr.EndTime" "time.Now()"; DAssign "mr.ElapsedTime" "r.EndTime.Sub(r.StartTime).Seconds()"; DAssign "re" "r.Failed.(*OperationError)"; DIf (DNot (DEq "re" "nil")) [DIf (DEq "mr.Failed" "nil") [DAssign "mr.Failed" "&MultiOperationError{}"] []; DAssign "e" "mr.Failed.(*MultiOperationError)"; DAssign "ok" "ok of mr.Failed.(*MultiOperationError)"; DIf (DAtom "ok") [DAssign "e.Operations" "append(e.Operations, re)"] []] []; DAssign "mr.Responses" "append(mr.Responses, r)"].
+(* driver/generic/sendcommand.go Driver.sendCommand *)
+Definition send_command_code : list dstmt :=
+  [DIf (DEq "len(driverOpts.FailedWhenContains)" "0") [DAssign "driverOpts.FailedWhenContains" "d.FailedWhenContains"] []; DAssign "r" "response.NewResponse( command, d.Transport.GetHost(), d.Transport.GetPort(), driverOpts.FailedWhenContains, )"; DCall "d.Channel.SendInput(command, opts...)"; DIf (DNot (DEq "err" "nil")) [DReturn "nil, err"] []; DCall "r.Record(b)"; DReturn "r, nil"].
+(* driver/network/sendconfig.go Driver.SendConfig *)
+Definition send_config_code : list dstmt :=
+  [DAssign "configLines" "strings.Split(config, ""\n"")"; DCall "d.SendConfigs(configLines, opts...)"; DIf (DNot (DEq "err" "nil")) [DReturn "nil, err"] []; DAssign "r" "response.NewResponse( config, d.Transport.GetHost(), d.Transport.GetPort(), m.Responses[0].FailedWhenContains, )"; DAssign "rOutputs" "make([]string, len(m.Responses))"; DRange "resp" "m.Responses" [DAssign "i" "index of resp"; DAssign "rOutputs[i]" "resp.Result"]; DAssign "r.StartTime" "m.StartTime"; DAssign "r.EndTime" "time.Now()"; DAssign "r.ElapsedTime" "r.EndTime.Sub(r.StartTime).Seconds()"; DAssign "r.Result" "strings.Join(rOutputs, ""\n"")"; DAssign "r.Failed" "m.Failed"; DReturn "r, nil"].
